@@ -147,6 +147,15 @@ def generate(rng, tier, profile='default'):
     # a long stream into a big queue: far more pushes than capacity
     n_ops = rng.randrange(80, 400)
     ks[0] = rng.choice((13, 21, 34, 64))
+  elif r_scale < 0.0104:
+    # a VERY long stream (beyond buffer / trim thresholds such as 8192 or
+    # 16384), spread over a few keys, hardly any reads
+    n_ops = rng.choice((8200, 8300, 9000, 16500, 20000))
+    ks[0] = rng.choice((1, 3, 5, 8))
+    p_read = 0.0005
+    for cl in clients:
+      if cl['shape'] in ('constant', 'ties', 'below'):
+        cl['shape'] = 'random'
   elif r_scale < 0.013:
     # capacities beyond platform thresholds (small-int cache at 256, powers
     # of two), overflowed by a few hundred pushes, few reads
@@ -359,8 +368,11 @@ def execute(desc):
           probe('key_collision_int_float')
       pushed = model.setdefault(key, [])
       # classify the push relative to what the model retains
-      retained = sorted(pushed, key=_sortkey, reverse=True)[:max(int(k), 0)]
-      rel = 'first'
+      # (classification is for coverage only; skipped on long streams, where
+      # re-sorting everything at every push would be quadratic)
+      retained = (sorted(pushed, key=_sortkey, reverse=True)[:max(int(k), 0)]
+                  if len(pushed) < 96 else None)
+      rel = 'first' if retained is not None else 'long'
       if retained:
         sk = _sortkey(item)
         lo = _sortkey(retained[-1])
